@@ -95,8 +95,242 @@ func genCrashCase(r *rng.R, spec string) crashCase {
 	return c
 }
 
+// ---------------------------------------------------------------------------------------
+// Judged stops.  The cases above only ask whether the host survives.  The cases below are terminating programs that
+// stay inside the documented behaviour of their machine, so the specification's own run of the same program (Lean
+// driver: Spec.step over the documented memory map) says how the run must end, and the result names the complete
+// final state: `kind@pc:sp:a:x:y:p:prev:mem` (prev = the byte in front of the final PC, mem = program bytes and the
+// four topmost stack bytes after the run).  Mode word `spec-<cpu>:<addr>`: the program is stored at <addr> and started
+// with RunExt; `lar-<cpu>:<addr>`: it is written to a program FILE with load address <addr> and handed to
+// CPU6502.LoadAndRun (the entry point of the -prexec set-up program).
+//   * self-modifying programs that overwrite an instruction they have ALREADY EXECUTED (in the loop, in a subroutine,
+//     by STA abs / abs,Y / (zp),Y) with an unimplemented opcode and run into it again: the run must end with an error,
+//     PC at that opcode, registers and memory as before it;
+//   * on the banked machines the same with a bank switch under the program counter: a valid routine is executed in the
+//     window, another bank / block / LUT entry / I/O bank holding an unimplemented opcode at the same address is
+//     selected and the window is entered again;
+//   * straight-line programs that end in an unimplemented opcode (RTI, STP, WAI, undocumented, 65C02-only on a 6502),
+//     a memory fault (past the end of a small memory, a RAM bank the machine does not have), invalid BCD, or a BRK.
+
+var stopIllegalBoth = []uint8{0x40, 0xDB, 0xCB, 0x02, 0x03, 0x13, 0x0B, 0x1B, 0x2B}
+var stopIllegalNmos = []uint8{0x80, 0x1A, 0x3A, 0xDA, 0x5A, 0x64, 0x9C, 0x04, 0x12, 0x89, 0x7C, 0xB2}
+
+func stopIllegal(r *rng.R, cpuModel string) uint8 {
+	if cpuModel == "6502" && r.Bool() {
+		return rng.PickU8(r, stopIllegalNmos)
+	}
+	return rng.PickU8(r, stopIllegalBoth)
+}
+
+// storeTo appends `LDA #v` and a store of A to a in one of three forms (X and the zero page pointer $40/$41 are free)
+func storeTo(r *rng.R, p []uint8, v uint8, a uint16, form int) []uint8 {
+	switch form % 3 {
+	case 1:
+		d := uint8(r.Intn(int(lo(a)) + 1))
+		return append(p, 0xA0, d, 0xA9, v, 0x99, lo(a-uint16(d)), hi(a-uint16(d))) // LDY #d; LDA #v; STA abs,Y
+	case 2:
+		return append(p, 0xA9, lo(a), 0x85, 0x40, 0xA9, hi(a), 0x85, 0x41, 0xA0, 0x00, 0xA9, v, 0x91, 0x40) // pointer; STA (zp),Y
+	}
+	return append(p, 0xA9, v, 0x8D, lo(a), hi(a)) // LDA #v; STA abs
+}
+
+func genStopCase(r *rng.R, spec string, idx int) crashCase {
+	cpuModel := []string{"6502", "65C02"}[r.Intn(2)]
+	mode := []string{"spec", "lar"}[idx%2]
+	limit := machLimit(spec)
+	at := []uint16{0x0400, 0x0800, 0x2000, 0x3E00, uint16(limit - 0x80)}[r.Intn(5)]
+	ill := stopIllegal(r, cpuModel)
+	one := []uint8{0xEA, 0xC8, 0x18, 0x38, 0xB8, 0x88, 0x98, 0xA8}[r.Intn(8)] // NOP INY CLC SEC CLV DEY TYA TAY
+	p := []uint8{}
+	kind := idx % 8 / 2 // 0: loop, 1: subroutine, 2: bank switch (banked machines) / loop, 3: straight line
+	if idx < 2 {
+		kind, at = 0, 0x0800
+	}
+	banked := limit == 0x9F00
+	switch {
+	case kind == 0 || (kind == 2 && !banked):
+		// at: V ; INX ; CPX #2 ; BEQ done ; <overwrite V's opcode> ; JMP at ; done: BRK
+		form := r.Intn(3)
+		if idx < 2 {
+			form = 0
+		}
+		st := storeTo(r, nil, ill, at, form)
+		p = append(p, one, 0xE8, 0xE0, 0x02, 0xF0, uint8(len(st)+3))
+		p = append(p, st...)
+		p = append(p, 0x4C, lo(at), hi(at), 0x00)
+	case kind == 1:
+		// JSR sub ; <overwrite the instruction in sub> ; JSR sub ; BRK ; sub: V ; RTS
+		form := r.Intn(3)
+		sub := at + uint16(3+[]int{5, 7, 14}[form]+3+1)
+		p = append(p, 0x20, lo(sub), hi(sub))
+		p = storeTo(r, p, ill, sub, form)
+		p = append(p, 0x20, lo(sub), hi(sub), 0x00, one, 0x60)
+	case kind == 2:
+		// a valid routine in one bank, an unimplemented opcode at the same window address in another one
+		var sel func(b int)
+		var w uint16
+		var nb int
+		sta := func(v uint8, a uint16) { p = append(p, 0xA9, v, 0x8D, lo(a), hi(a)) }
+		switch {
+		case strings.HasPrefix(spec, "XSixteen"):
+			nb = 64
+			if spec == "XSixteen2048K" {
+				nb = 256
+			}
+			sel = func(b int) { sta(uint8(b), 0x0000) }
+			w = uint16(0xA000 + r.Intn(0x1FF0))
+		case strings.HasPrefix(spec, "GeoRam"):
+			nb = 32
+			if spec == "GeoRam_2048K" {
+				nb = 128
+			}
+			sel = func(b int) { sta(uint8(b), 0xDFFF) }
+			sta(uint8(r.Intn(64)), 0xDFFE)
+			w = uint16(0xDE00 + r.Intn(0xF0))
+		default: // F256
+			if r.Bool() {
+				nb = 56 // slot 5 of the active LUT 0 through the edit window; physical banks 8.. (not the ones the program lives in)
+				sta(0x80, 0x0000)
+				sel = func(b int) { sta(uint8(8+b), 0x000D) }
+				w = uint16(0xA000 + r.Intn(0x1FF0))
+			} else {
+				nb = 4
+				sel = func(b int) { sta(uint8(b), 0x0001) }
+				w = uint16(0xC000 + r.Intn(0x1FF0))
+			}
+		}
+		b0 := r.Intn(nb)
+		b1 := (b0 + 1 + r.Intn(nb-1)) % nb
+		k := uint16(r.Intn(2)) // the routine: [V] RTS resp. [V] <unimplemented>
+		sel(b0)
+		if k == 1 {
+			sta(one, w)
+		}
+		sta(0x60, w+k)
+		sel(b1)
+		if k == 1 {
+			sta(one, w)
+		}
+		sta(ill, w+k)
+		sel(b0)
+		p = append(p, 0x20, lo(w), hi(w))
+		sel(b1)
+		p = append(p, 0x20, lo(w), hi(w), 0x00)
+	default:
+		// straight line: a few harmless instructions, then the way the program stops
+		for i := r.Intn(4); i > 0; i-- {
+			switch r.Intn(4) {
+			case 0:
+				p = append(p, 0xA2, 1+uint8(r.Intn(255))) // LDX #
+			case 1:
+				p = append(p, one)
+			case 2:
+				p = append(p, 0xA9, 1+uint8(r.Intn(255)), 0x85, uint8(0x20+r.Intn(0xC0))) // LDA # ; STA zp
+			case 3:
+				p = append(p, 0x48, 0x68) // PHA PLA
+			}
+		}
+		switch r.Intn(6) {
+		case 0, 1:
+			p = append(p, ill, 0x00)
+		case 2:
+			// memory fault where the machine has one: past the end of a small memory, a RAM bank that does not exist
+			switch {
+			case limit < 0x10000 && !banked:
+				a := uint16(limit + r.Intn(0x10000-limit))
+				p = append(p, []uint8{0xAD, 0x8D, 0xEE}[r.Intn(3)], lo(a), hi(a), 0x00)
+			case spec == "XSixteen512K":
+				p = append(p, 0xA9, uint8(64+r.Intn(192)), 0x85, 0x00, 0xAD, 0x00, 0xA0, 0x00)
+			default:
+				p = append(p, ill, 0x00)
+			}
+		case 3:
+			p = append(p, 0xF8, 0xA9, 0x0F, 0x69, 0x01, 0x00) // SED ; LDA #$0F ; ADC #$01: invalid BCD
+		case 4:
+			p = append(p, 0xF8, 0x38, 0xA9, 0x1B, 0xE9, 0x01, 0x00) // SED ; SEC ; LDA #$1B ; SBC #$01
+		case 5:
+			p = append(p, 0x00)
+		}
+	}
+	return crashCase{spec: spec, model: fmt.Sprintf("%s-%s:%04x", mode, cpuModel, at), code: p}
+}
+
+// runStopCase executes a judged case in THIS process and returns `kind@final state`
+func runStopCase(c crashCase) string {
+	cfg := emuconfig.DefaultConfig()
+	cfg.MemSpec = c.spec
+	dash, colon := strings.Index(c.model, "-"), strings.Index(c.model, ":")
+	cfg.Model = c.model[dash+1 : colon]
+	var at uint16
+	fmt.Sscanf(c.model[colon+1:], "%04x", &at)
+	p, err := cfg.NewCpu()
+	if err != nil {
+		return "builderr"
+	}
+	res := "halt"
+	state := ""
+	if protect(func() {
+		done := make(chan error, 1)
+		go func() {
+			defer func() {
+				if r := recover(); r != nil {
+					done <- fmt.Errorf("panic %v", r)
+				}
+			}()
+			if strings.HasPrefix(c.model, "lar-") {
+				f, err := os.CreateTemp("", "verif-lar")
+				if err != nil {
+					panic(err)
+				}
+				f.Write(append([]byte{lo(at), hi(at)}, c.code...))
+				f.Close()
+				defer os.Remove(f.Name())
+				_, _, e := p.LoadAndRun(f.Name())
+				done <- e
+				return
+			}
+			for i, b := range c.code {
+				p.Mem.Store(at+uint16(i), b)
+			}
+			done <- p.RunExt(at, true)
+		}()
+		select {
+		case e := <-done:
+			if e != nil {
+				res = "error"
+				if strings.HasPrefix(e.Error(), "panic ") {
+					res = "hostcrash"
+					return
+				}
+			}
+		case <-time.After(2 * time.Second):
+			res = "running"
+			return
+		}
+		peek := func(a uint16) string {
+			v := "!!"
+			protect(func() { v = fmt.Sprintf("%02x", p.Mem.Load(a)) })
+			return v
+		}
+		var sb strings.Builder
+		for i := range c.code {
+			sb.WriteString(peek(at + uint16(i)))
+		}
+		for a := uint16(0x01FC); a <= 0x01FF; a++ {
+			sb.WriteString(peek(a))
+		}
+		state = fmt.Sprintf("@%04x:%02x:%02x:%02x:%02x:%02x:%s:%s", p.PC, p.SP, p.A, p.X, p.Y, p.Flags, peek(p.PC-1), sb.String())
+	}) {
+		return "hostcrash"
+	}
+	return res + state
+}
+
 // runCrashCase executes one case in THIS process and returns its result word
 func runCrashCase(c crashCase) string {
+	if strings.HasPrefix(c.model, "spec-") || strings.HasPrefix(c.model, "lar-") {
+		return runStopCase(c)
+	}
 	cfg := emuconfig.DefaultConfig()
 	cfg.MemSpec = c.spec
 	if strings.HasPrefix(c.model, "loadfile:") {
@@ -288,12 +522,16 @@ func runChild(dir string, cases []crashCase) ([]string, bool) {
 
 func hostCrashStream(seed uint64, n int) {
 	r := rng.New(seed + 1111)
+	rs := rng.New(seed + 111111) // the judged stops draw from their own generator: the cases above stay what they were
 	dir := tmpDir()
 	defer os.RemoveAll(dir)
 	for _, spec := range memSpecs {
 		cases := []crashCase{}
 		for i := 0; i < n; i++ {
 			cases = append(cases, genCrashCase(r, spec))
+		}
+		for i := 0; i < 8+n/10; i++ {
+			cases = append(cases, genStopCase(rs, spec, i))
 		}
 		res, ok := runChild(dir, cases)
 		if !ok {
@@ -311,7 +549,7 @@ func hostCrashStream(seed uint64, n int) {
 			}
 		}
 		for i, c := range cases {
-			count("hostcrash." + spec + "." + res[i])
+			count("hostcrash." + spec + "." + strings.SplitN(res[i], "@", 2)[0])
 			emit(fmt.Sprintf("crash %s => %s", c.String(), res[i]))
 		}
 	}
